@@ -21,6 +21,8 @@ def showSet (o : Outcome (List String)) : String := showOut (o.map fun l => comm
 def showSeq (o : Outcome (List String)) : String := showOut (o.map commaJoin)
 def showInts (l : List Int) : String := commaJoin (l.map toString)
 
+def showBool (o : Outcome Bool) : String := showOut (o.map fun b => if b then "true" else "false")
+
 def dispatch (op : String) (a : List String) : Option String :=
   match op, a with
   | "shift", [id, dx, dy, dv] => some (shift id (int! dx) (int! dy) (int! dv))
@@ -33,6 +35,10 @@ def dispatch (op : String) (a : List String) : Option String :=
     some (match parseExt id with
       | some e => showInts [e.h, e.x, e.y, e.v, e.f] ++ ";" ++ e.id
       | none => "ERR")
+  | "ovE", [a, b] => some (showBool (overlapExt a b))
+  | "ovEA", [a, b] => some (showBool (overlapExtArr (commaSplit a) (commaSplit b)))
+  | "ovS", [a, b] => some (showBool (overlapSp a b))
+  | "ovSA", [a, b] => some (showBool (overlapSpArr (commaSplit a) (commaSplit b)))
   | "n6", [id] => some (commaJoin (n6 id))
   | "n8", [id] => some (commaJoin (n8 id))
   | "n26", [id] => some (commaJoin (n26 id))
